@@ -186,6 +186,11 @@ impl<'a, F: IVP> SolOut for DefaultSolOut<'a, F> {
         y: &mut [Float],
         interpolant: Option<&StepInterpolant<'_>>,
     ) -> ControlFlag {
+        // Time comparisons allow 1e-12, but never more than a small fraction of the step just
+        // taken: on a fine time scale (steps near or below 1e-12) the absolute value alone would
+        // merge distinct accepted steps and drop their samples.
+        self.tol = (1e-3 * (*x - xold).abs()).min(1e-12);
+
         // ============================================================================
         // Dense Output Collection
         // ============================================================================
